@@ -96,6 +96,8 @@ func TestVerifReport(t *testing.T) {
 		"CVSS:3.1/AV:L/AC:L/PR:N/UI:N/S:U/C:L/I:N/A:N",      // base 4.0
 		"CVSS:3.1/AV:N/AC:L/PR:N/UI:N/S:C/C:H/I:H/A:H",      // base 10
 		"CVSS:3.0/AV:N/AC:L/PR:N/UI:N/S:U/C:N/I:N/A:N/MC:H", // base 0, environmental above 0
+		"CVSS:3.1/AV:N/AC:L/PR:L/UI:R/S:U/C:H/I:H/A:H/E:H/RL:U/RC:C/CR:M/IR:H/AR:L/MAV:A/MAC:H/MPR:N/MUI:N/MS:C/MC:N/MI:L/MA:H",
+		"CVSS:3.0/AV:P/AC:H/PR:H/UI:N/S:C/C:L/I:L/A:L/E:P/RL:T/RC:R/MAV:L/MAC:L/MPR:L/MUI:R/MS:U/MC:H/MI:N/MA:L",
 	}
 	type lc struct {
 		tag  language.Tag
@@ -145,7 +147,7 @@ func reportProbe(st *SpecTables, repo string) (string, bool) {
 	}
 	out, err := runOverlayTest(repo, "v3/report", reportProbeSrc(st), "TestVerifReport")
 	hit := strings.Contains(out, "REPORT-HIT")
-	rep := "report probe on the real code (9 vectors (incl. scores 0, 4.0, 9.0, 10 on the band boundaries) x 4 language settings x every field of the three report levels and their embedded reports; oracle: the name function of the metric the field is named after, the same level's Encode/Score/Severity):\n"
+	rep := "report probe on the real code (11 vectors (incl. scores 0, 4.0, 9.0, 10 on the band boundaries) x 4 language settings x every field of the three report levels and their embedded reports; oracle: the name function of the metric the field is named after, the same level's Encode/Score/Severity):\n"
 	switch {
 	case hit:
 		i := strings.Index(out, "REPORT-HIT")
